@@ -111,6 +111,38 @@ example : ∀ r ∈ [(⟨7800000, 8400000, 600000⟩ : Req), ⟨7200000, 9000000
     r.step = 600000 ∧ 0 ≤ r.start ∧ r.start ≤ r.stop := by
   intro r hr; simp at hr; rcases hr with rfl | rfl | rfl <;> decide
 
+
+/-! ### the whole chain on arbitrary histories (the repaired code) -/
+
+/-- **C42_alt_step**: a request answered from extents cached under a smaller common step `s'`
+    that divides its step (alternative cache keys) gets the direct answer — this needs the grid
+    repair (`C42_noGridFix_false`). -/
+theorem C42_alt_step (D : Down) (hD : D.Sorted) (req : Req) (hreq : Aligned req) (s' : Int) (hs' : 0 < s')
+    (hdvd : req.step % s' = 0) (exts : List Extent) (hgood : ∀ e ∈ exts, GoodExtent D s' e) :
+    (handleHit ⟨true, true⟩ D req exts true).1 = evalD D req.start req.stop req.step :=
+  handleHit_resp_m D hD req hreq s' hs' hdvd exts hgood
+
+/-- **C42 for all histories**: any number of range requests with any positive steps (common
+    steps that reuse lower-step extents and others), aligned or not (StepAlign is on), any
+    ranges, any split interval, any data that does not change: every response of the repaired
+    chain equals the direct answer to the step-aligned request. -/
+theorem C42_history (D : Down) (hD : D.Sorted) (splitMs : Int) (hsp : 0 < splitMs) (reqs : List Req)
+    (hr : ∀ r ∈ reqs, 0 < r.step ∧ 0 ≤ r.start ∧ r.start ≤ r.stop) :
+    history ⟨true, true⟩ D true splitMs [] reqs =
+      reqs.map fun r => some (evalD D (r.start / r.step * r.step) (r.stop / r.step * r.step) r.step) :=
+  history_spec_m D hD splitMs hsp reqs [] (by intro kv hkv; simp at hkv) hr
+
+/-- **C42** at full strength holds for the repository as it is now (`liveCfg`, both repairs). -/
+theorem C42 : C42_full ⟨true, true⟩ := by
+  intro D splitMs reqs hD hsp hal
+  rw [C42_history D hD splitMs hsp reqs (fun r hr => ⟨(hal r hr).1, (hal r hr).2.1, (hal r hr).2.2.1⟩)]
+  apply List.map_congr_left
+  intro r hr
+  obtain ⟨h1, _, _, h4, h5⟩ := hal r hr
+  rw [Int.ediv_mul_cancel (Int.dvd_of_emod_eq_zero h4), Int.ediv_mul_cancel (Int.dvd_of_emod_eq_zero h5)]
+
+example : liveCfg = ⟨true, true⟩ := rfl
+
 /-! ### regenerated obligations -/
 
 /-- the variant the model driver runs (`liveCfg`) is the one the sources show: `minTime()` and the
